@@ -149,17 +149,19 @@ func NewRootConfig(
 		koanf:  k,
 	}
 
-	configFileFromEnv := os.Getenv("MOCKERY_CONFIG")
-	if configFileFromEnv != "" {
-		configFile = pathlib.NewPath(configFileFromEnv)
+	// Like every other parameter, `config` given on the command line wins
+	// over the MOCKERY_CONFIG environment variable.
+	configFileFromFlags, err := flags.GetString("config")
+	if err != nil {
+		return nil, nil, fmt.Errorf("getting --config from flags: %w", err)
+	}
+	if configFileFromFlags != "" {
+		configFile = pathlib.NewPath(configFileFromFlags)
 	}
 	if configFile == nil {
-		configFileFromFlags, err := flags.GetString("config")
-		if err != nil {
-			return nil, nil, fmt.Errorf("getting --config from flags: %w", err)
-		}
-		if configFileFromFlags != "" {
-			configFile = pathlib.NewPath(configFileFromFlags)
+		configFileFromEnv := os.Getenv("MOCKERY_CONFIG")
+		if configFileFromEnv != "" {
+			configFile = pathlib.NewPath(configFileFromEnv)
 		}
 	}
 	if configFile == nil {
